@@ -75,6 +75,16 @@ CHECKS["C17"] = dict(engine="Split", design="§4 C17",
     note="Trusted: crypto/tls, TLC. A connection not handed out within 400 ms counts as closed. An application whose own base TLS configuration advertises a library-prefixed protocol is outside the quantifier.",
     technique="TLA+ spec (Split.tla) + TLC exhaustive + TLC-generated behaviours on the real listeners + TLC trace validation")
 
+SEAL_NOTE = "Trusted: AES-GCM, X25519, go-kms-wrapping's AEAD wrapper, protobuf, TLC. Keys are atoms in the spec and real keys in the replay; what is checked is which secret, key id and associated data the code uses."
+CHECKS["C11"] = dict(engine="Seal", design="§4 C11",
+    text="Seal.tla defines symbolic Enc/Dec with the previous-key fallback; TLC checks for every sender pair x receiver current/previous pair that decryption yields the original exactly when secret and key id agree. TLC-generated cases (matching, one-component-changed and random receivers, both sides, five message types, tamper classes incl. short and key-info-less envelopes, record filed under key id / application id / no id) plus exhaustive single-bit flips and truncations of one envelope per message type run on the real EncryptMessage/DecryptMessage; every outcome is judged by SealTrace.tla.",
+    note=SEAL_NOTE + " Bit/byte coverage is brute force in the driver (exhaustive single-bit flips and truncations in the thorough tier).",
+    technique="TLA+ spec (Seal.tla) + TLC exhaustive over key combinations + replay with exhaustive bit flips/truncations + TLC trace validation")
+CHECKS["C12"] = dict(engine="Seal", design="§4 C12",
+    text="Seal.tla fixes, per record type, which fields must reach storage sealed and what loading with the same / no / another wrapper and a transplanted sealed field must yield. The full matrix record type x optional fields x wrapper is executed on the real Store/Load functions through a recording storage (stored bytes inspected), and whole flows (operator-authorised, token, credential rotation with retained previous keys) are run with wrappers on both sides while every message handed to storage is searched for the run's secrets; TLC judges every line.",
+    note=SEAL_NOTE + " Needs an AAD-honouring wrapper (the harness' own; the repository's test wrapper ignores AAD).",
+    technique="TLA+ spec (Seal.tla record section) + exhaustive record matrix and flow replay with stored-byte inspection + TLC trace validation")
+
 PENDING = {}
 for i in range(1, 21):
     pid = "C%02d" % i
